@@ -41,6 +41,34 @@ def interpreters():
     return out
 
 
+_ZEROS = []
+
+
+def interpreter_dependent_heads(b, rng):
+    """Spellings of the score b whose acceptance by the BUILTIN float() follows the interpreter: digit-group
+    underscores (language version), characters whose white-space / decimal-digit property follows the Unicode
+    database the interpreter was built with (every script's digits, old and recent; separators that were or became
+    white space).  Which of them an interpreter accepts is not assumed anywhere: the probe reports it."""
+    import unicodedata
+    t = "%.1f" % b
+    if not _ZEROS:
+        _ZEROS.extend(cp for cp in range(0x660, 0x1FBFA) if unicodedata.category(chr(cp)) == "Nd" and unicodedata.digit(chr(cp), -1) == 0)
+    zeros = _ZEROS
+    out = [t[0] + "_" + t[1:] if len(t) > 3 else "0_" + t, t + "_0", "_" + t]
+    for ch in ("\x1c", "\x1f", "\x85", "\u180e", "\u200b", "\u2028", "\u3000", "\ufeff", "\u00a0"):
+        out.append(rng.choice((t + ch, ch + t)))
+    for z in rng.sample(zeros, 6) + [0x1E4F0, 0x16AC0, 0x1E140, 0x11F50, 0x1E950]:
+        out.append("".join(chr(z + int(c)) if c.isdigit() else c for c in t))
+    return out
+
+
+# code points whose properties (assigned / printable / case / width) differ between the Unicode databases of the
+# supported interpreters (5.2 in 2.7 ... 15.1 in 3.13), plus format / bidi / private-use ones
+UNICODE_SENSITIVE = ["\u20bf", "\u32ff", "\U0001fae8", "\U0001f979", "\U0001f978", "\U0001fa70", "\u9fef", "\ua7c0", "\u1c90", "\u0560",
+                     "\u0378", "\ue000", "\u202e", "\u200d", "\ufffd", "\ufeff", "\u00ad", "\u00a0", "\u1e9e", "\U0001e4f0", "\U00016ac0",
+                     "\u2b74", "\U0001f6d7", "\u31bb", "\u0870", "\U00011f02"]
+
+
 def corpus(rng, n):
     c = {"construct": [], "rh": [], "text": [], "ask": [], "cli": []}
     for ver in T.VERSIONS:
@@ -68,6 +96,9 @@ def corpus(rng, n):
                                                                   "%.2f" % (b - 0.25), "%.2f" % (b + 0.25)]
                     for h in rng.sample(heads, 4):
                         c["rh"].append([ver, h + "/" + s])
+                    if rng.random() < 0.5:
+                        for h in rng.sample(interpreter_dependent_heads(b, rng), 3):
+                            c["rh"].append([ver, h + "/" + s])
                 except Exception:
                     pass
     for s in V.junk_strings(rng, n // 4):
@@ -91,6 +122,14 @@ def corpus(rng, n):
                 c["ask"].append([DLG.VERSION_ARG[vt], am, ans])
     for argv, answers in C17.cases(rng, max(40, n // 2), True):
         c["cli"].append([argv, answers])
+    # what the calculator echoes of an invalid vector must not depend on the interpreter's Unicode database
+    for i, ch in enumerate(UNICODE_SENSITIVE):
+        ver = T.VERSIONS[i % len(T.VERSIONS)]
+        p, m, s = V.rand_vector(rng, ver, p_opt=0.3, p_nd=0.2)
+        k = rng.randrange(len(s) + 1)
+        c["cli"].append([["-" + ver, "-v", rng.choice((s[:k] + ch + s[k:], s + ch, s[:-1] + ch))], []])
+        c["construct"].append([ver, s[:k] + ch + s[k:]])
+        c["text"].append("%s%s%s %s" % (ch, s, ch, s))
     for vf in ([], ["-2"], ["-3"], ["-4"]):
         for s in ("é", "CVSS:3.1/AV:N/AC:L/PR:N/UI:N/S:U/C:H/I:H/A:Ä", "AV:N/AC:L/Au:N/C:P/I:P/A:\u4e2d"):
             c["cli"].append([vf + ["-v", s], []])
@@ -157,8 +196,8 @@ def run(R):
     import concurrent.futures
     R.rule = RULE
     R.require("transcript-equal", "real-cli-equal", "import")
-    R.assumptions = ["reference interpreter: /venv/bin/python (3.12)", "float() spellings whose grammar differs by language version "
-                     "(underscores) are not generated", "error MESSAGES are compared only where the CLI prints them"]
+    R.assumptions = ["reference interpreter: /venv/bin/python (3.12)", "which score spellings an interpreter's builtin float() accepts is reported by the probe, "
+                     "never assumed", "error MESSAGES are compared only where the CLI prints them"]
     P = R.P
     interps = interpreters()
     have = set(v[:2] for v in interps.values())
@@ -225,6 +264,20 @@ def run(R):
                     a, b = dict(a, korder=None), dict(b, korder=None)
                     if a == b:
                         continue
+                if sec == "rh":
+                    fa, fb = a.get("float_ok"), b.get("float_ok")
+                    a, b = {k: v for k, v in a.items() if k != "float_ok"}, {k: v for k, v in b.items() if k != "float_ok"}
+                    if a == b:
+                        continue
+                    rhm = "CVSS%sRHMalformedError" % item[0]
+                    if (fa is not None and fb is not None and fa != fb
+                            and (a.get("err") == rhm) == (not fa) and (b.get("err") == rhm) == (not fb)):
+                        # the two interpreters' BUILTIN float() disagree about the score text, and each library outcome is
+                        # what its own float() implies (fails <=> RH-malformed): finding F9, keyed by this mechanism alone
+                        P.violation("transcript-equal", "C20:rh:accepted-score-spellings-follow-the-interpreter's-builtin-float",
+                                    {"interpreter": name, "section": sec, "item": item}, reference=a, observed=b,
+                                    float_accepts_head={"reference": fa, name: fb})
+                        continue
                 field = first_diff(a, b)
                 key = "C20:%s:%s:%s-differs" % (tag, sec, field)
                 if tag == "py2.7" and non_ascii(item) and sec in ("cli", "ask"):
@@ -278,6 +331,8 @@ def replay(R, w):
             with open(out, encoding="utf-8") as f:
                 outs.append(json.load(f)[case["section"]][0])
         R.P.ev("transcript-equal")
+        if case["section"] == "rh":
+            outs = [{k: v for k, v in o.items() if k != "float_ok"} for o in outs]
         if outs[0] != outs[1]:
             R.P.violation("transcript-equal", w["key"], case, reference=outs[0], observed=outs[1])
     finally:
